@@ -132,7 +132,7 @@ Qed.
 
 (* the per-construct statement in the frame model: for every fuel, every scope chain whose top frame is an
    activation of the scope the query is compiled in, every code position, stack, pending forks, offset and store *)
-Corollary C01vm_functions_segment_correct : forall nt code fu q, c01vm2.Lemmas.Impl nt code fu q.
+Corollary C01vm_functions_segment_correct : forall nt code tco fu q, c01vm2.Lemmas.Impl nt code tco fu q /\ c01vm2.Lemmas.ImplT nt code tco fu q.
 Proof. exact c01vm2.Correct.impl_all_fu. Qed.
 
 (* non-vacuity: generators in both operands, a nested operand that needs a frame with a variable, a recursive
@@ -205,13 +205,13 @@ Proof. vm_compute. split; reflexivity. Qed.
    before the new one is pushed and, when no fork created since F1's push is pending, the new frame reuses F1's slots
    (Correct.G_enter_rec): the frame stack does not grow along tail calls. *)
 Theorem C01vm_tailcall_local_sound :
-  forall (nt : c01vm2.Code.natives) (code : list c01vm2.Code.instr) (m : nat) (q : c01vm2.Syntax.query),
-  c01vm2.Lemmas.Impl nt code m q ->
+  forall (nt : c01vm2.Code.natives) (code : list c01vm2.Code.instr) (tco : bool) (m : nat) (q : c01vm2.Syntax.query),
+  c01vm2.Lemmas.Impl nt code tco m q ->
   forall scR : list c01vm2.VM.frame, scR <> nil ->
   forall (ce : c01vm2.Compile.cenv) (pe idf : nat) (cb : list c01vm2.Code.instr) (nvc s0 s1 : nat),
   c01vm2.Compile.ce_lt ce idf = true ->
   c01vm2.Mach.at_ code pe (c01vm2.Code.Iscope idf nvc 0) ->
-  c01vm2.Compile.comp q ce idf (S pe) 0 s0 = Some (cb, nvc, s1) ->
+  c01vm2.Compile.compg tco q ce None idf (S pe) 0 s0 = Some (cb, nvc, s1) ->
   c01vm2.Lemmas.code_at code (S pe) (cb ++ c01vm2.Code.Iret :: nil) ->
   forall (cx : c01vm2.Gen.gctx) (rho : c01vm2.Den.venv) (v : c01vm2.Syntax.jv)
          (P : list c01vm2.VM.sv -> nat -> c01vm2.VM.gx -> Prop)
@@ -223,12 +223,12 @@ Theorem C01vm_tailcall_local_sound :
   (forall i : nat, c01vm2.Gen.kept sc1 ce i -> c01vm2.Gen.g_keep cx i) ->
   (forall i : nat, c01vm2.Gen.g_keep0 cx i -> c01vm2.Gen.g_keep cx i) ->
   c01vm2.Gen.g_koff cx <= oF ->
-  c01vm2.Lemmas.envOK code sc1 ce rho vs (c01vm2.Gen.g_n0 cx) oF ->
+  c01vm2.Lemmas.envOK code tco sc1 ce rho vs (c01vm2.Gen.g_n0 cx) oF ->
   c01vm2.Gen.g_n0 cx <= n -> o <= length vs -> c01vm2.Gen.g_ctr cx <= stampF -> stampF < c01vm2.VM.ctr g ->
   (forall a b m0 x m' x', P a m0 x -> c01vm2.Gen.chg (fun i : nat => oF <= i) a b -> c01vm2.Gen.cle m0 x m' x' -> P b m' x') ->
   (forall a b m0 x m' x', P a m0 x -> c01vm2.Gen.keepK0 cx a b -> c01vm2.Gen.cle m0 x m' x' -> P b m' x') ->
   P vs n g ->
-  forall lb' : nat, lb' <= S m ->
+  forall lb' : nat, lb' <= S (c01vm2.Lemmas.lbf tco m) ->
   let r := c01vm2.Den.den1 nt (c01vm2.Den.call_of nt m) q rho v in
   let s := c01vm2.Mach.N sc1 pc (c01vm2.VM.SV v :: c01vm2.Gen.g_st cx) (c01vm2.Gen.g_base cx) vs n o g in
   let T := c01vm2.Gen.Tend nt code lb' cx (snd r) P in
@@ -241,13 +241,48 @@ Theorem C01vm_tailcall_local_sound :
 Proof. exact c01vm2.Correct.tailcall_local_sound. Qed.
 Print Assumptions C01vm_tailcall_local_sound.
 
-(* NOT proved (kept visible as a definition; docs/C01vm.md says what blocks it): the whole-program statement for the
-   code after optimizeTailRec.  The pass itself (Compile.tailrec, a transcription of the scan with the pcs stack) is
-   tied to compiler.go by the instruction-list comparison, and the VM is run on the rewritten code for every sampled
-   (program, input) and compared with the implementation and with den. *)
-Definition C01vm_tailrec_sound_statement : Prop :=
-  forall (nt : c01vm2.Code.natives) (q : c01vm2.Syntax.query) (code : list c01vm2.Code.instr),
-  c01vm2.Compile.compile_raw q = Some code ->
+(* ---- optimizeTailRec, whole programs ----
+   Compile.compg tco is the compiler with the pass built in (tco = true) or left out (tco = false): a call of the
+   enclosing parameterless function in tail position (through pipe, comma, if, `as` bodies and `def ...; rest`) is
+   emitted as opcallrec, or as a jump when the function's scope has no variable.  The tail positions that
+   optimizeTailRec also recognises but the theorem does not cover (right side of //, a catch handler, the extract part of
+   foreach, a label body) make compg fail (outside the fragment).  Run.v checks on every sampled program that
+   compile_raw_g true q = tailrec (compile_raw_g false q), Compile.tailrec being the pass as the Go code does it (a scan
+   over the emitted code with the stack of open opscope's), and the instruction-list comparison ties it to compiler.go.
+   (1) the code compiled with the pass implements the denotation; (2) hence the pass is sound: with and without it the
+   observations coincide whenever the denotation terminates.  The converse direction and never-stuck above are for
+   tco = false (a tail call turned into a jump pushes no frame, so the push counter gives no lower bound on the steps). *)
+Theorem C01vm_tailrec_compile_correct :
+  forall (nt : c01vm2.Code.natives) (tco : bool) (q : c01vm2.Syntax.query) (code : list c01vm2.Code.instr),
+  c01vm2.Compile.compile_raw_g tco q = Some code ->
   forall (fu : nat) (v : c01vm2.Syntax.jv), exists fuel : nat,
-    c01vm2.Correct.run_is (c01vm2.Den.den nt fu q [] v)
-      (c01vm2.VM.run nt (c01vm2.Compile.tailrec code) fuel (c01vm2.VM.init (c01vm2.Compile.tailrec code) v)).
+    c01vm2.Correct.run_is (c01vm2.Den.den nt fu q [] v) (c01vm2.VM.run nt code fuel (c01vm2.VM.init code v)).
+Proof. exact c01vm2.Correct.compile_raw_g_correct. Qed.
+Print Assumptions C01vm_tailrec_compile_correct.
+
+Theorem C01vm_tailrec_sound :
+  forall (nt : c01vm2.Code.natives) (q : c01vm2.Syntax.query) (c c' : list c01vm2.Code.instr),
+  c01vm2.Compile.compile_raw_g false q = Some c -> c01vm2.Compile.compile_raw_g true q = Some c' ->
+  forall (fu : nat) (v : c01vm2.Syntax.jv), snd (c01vm2.Den.den nt fu q [] v) <> Some c01vm2.Den.XFuel ->
+  exists f f' o, c01vm2.VM.run nt c f (c01vm2.VM.init c v) = o /\ c01vm2.VM.run nt c' f' (c01vm2.VM.init c' v) = o /\
+                 c01vm2.Correct.run_is (c01vm2.Den.den nt fu q [] v) o.
+Proof. exact c01vm2.Correct.tailrec_sound. Qed.
+Print Assumptions C01vm_tailrec_sound.
+
+(* non-vacuity: a counting loop whose recursive call is in tail position; the function has a variable (the operand
+   slot of `.< 3`), so the call becomes opcallrec: def f: if . < 3 then (. + 1 | f) else . end; f   on 0 gives 3;
+   the code contains opcallrec and the machine runs it to the same result *)
+Example C01vm_tailrec_nonvacuous :
+  let num z := c01vm2.Syntax.QConst (c01vm2.Syntax.VNum z) in
+  let q := c01vm2.Syntax.QDef 7%N []
+             (c01vm2.Syntax.QIf (c01vm2.Syntax.QBinop c01vm2.Syntax.OLt c01vm2.Syntax.QId (num 3%Z))
+                (c01vm2.Syntax.QPipe (c01vm2.Syntax.QBinop c01vm2.Syntax.OAdd c01vm2.Syntax.QId (num 1%Z)) (c01vm2.Syntax.QCallF 7%N []))
+                c01vm2.Syntax.QId)
+             (c01vm2.Syntax.QCallF 7%N []) in
+  let v := c01vm2.Syntax.VNum 0 in
+  option_map (fun c => (existsb (fun i => match i with c01vm2.Code.Icallrec _ => true | _ => false end) c,
+                        fst (c01vm2.VM.run c01vm2.Natives.cnat c 2000 (c01vm2.VM.init c v))))
+             (c01vm2.Compile.compile_raw_g true q)
+    = Some (true, [c01vm2.Syntax.VNum 3]) /\
+  c01vm2.Compile.compile_raw_g true q = option_map c01vm2.Compile.tailrec (c01vm2.Compile.compile_raw_g false q).
+Proof. vm_compute. split; reflexivity. Qed.
